@@ -804,4 +804,289 @@ theorem fragSound_of_ResAll (codec : Codec) (st : State) (hinv : Inv codec st) :
         | none => exact ih rs h
         | some r => simp [ResAll] at h
 
+/-! ### the probe order of the hash table is immaterial -/
+
+/-- two table entries that would answer the same lookups: same size, same checksum, same bytes -/
+def SameKey (blocks : List FragBlock) (a b : Chunk) : Prop :=
+  a.size = b.size ∧ a.hash = b.hash ∧ ∃ ba bb, blocks[a.index]? = some ba ∧ blocks[b.index]? = some bb ∧
+    slice ba.data a.offset a.size = slice bb.data b.offset b.size
+
+/-- no two entries of the fragment table hold the same bytes under the same checksum -/
+def Uniq (st : State) : Prop := st.table.Pairwise (fun a b => ¬ SameKey st.blocks a b)
+
+theorem SameKey_symm {blocks a b} (h : SameKey blocks a b) : SameKey blocks b a := by
+  obtain ⟨h1, h2, ba, bb, h3, h4, h5⟩ := h
+  exact ⟨h1.symm, h2.symm, bb, ba, h4, h3, h5.symm⟩
+
+theorem SameKey_of_Match {st : State} {a b : Chunk} {d : Bytes} {hd : UInt32} (ha : Match st a d hd)
+    (hb : Match st b d hd) : SameKey st.blocks a b := by
+  obtain ⟨a1, a2, ba, a3, a4⟩ := ha
+  obtain ⟨b1, b2, bb, b3, b4⟩ := hb
+  exact ⟨by rw [a1, b1], by rw [a2, b2], ba, bb, a3, b3, by rw [a4, b4]⟩
+
+theorem Match_of_SameKey {st : State} {a b : Chunk} {d : Bytes} {hd : UInt32} (h : SameKey st.blocks a b)
+    (ha : Match st a d hd) : Match st b d hd := by
+  obtain ⟨h1, h2, ba, bb, h3, h4, h5⟩ := h
+  obtain ⟨a1, a2, ba', a3, a4⟩ := ha
+  rw [h3] at a3; cases a3
+  exact ⟨by rw [← h1, a1], by rw [← h2, a2], bb, h4, by rw [← h5, a4]⟩
+
+theorem pairwise_unique {α} {R : α → α → Prop} (hsym : ∀ a b, R a b → R b a) :
+    ∀ (l : List α), l.Pairwise R → ∀ a ∈ l, ∀ b ∈ l, ¬ R a b → a = b := by
+  intro l
+  induction l with
+  | nil => intro _ a ha; cases ha
+  | cons x t ih =>
+    intro hp a ha b hb hn
+    rw [List.pairwise_cons] at hp
+    rcases List.mem_cons.1 ha with rfl | ha'
+    · rcases List.mem_cons.1 hb with rfl | hb'
+      · rfl
+      · exact absurd (hp.1 b hb') hn
+    · rcases List.mem_cons.1 hb with rfl | hb'
+      · exact absurd (hsym _ _ (hp.1 a ha')) hn
+      · exact ih hp.2 a ha' b hb' hn
+
+/-- at most one table entry can match a fragment -/
+theorem match_unique {st : State} (hu : Uniq st) {a b : Chunk} (ha : a ∈ st.table) (hb : b ∈ st.table) {d : Bytes}
+    {hd : UInt32} (hma : Match st a d hd) (hmb : Match st b d hd) : a = b := by
+  apply pairwise_unique (R := fun a b => ¬ SameKey st.blocks a b) ?_ st.table hu a ha b hb
+  · intro hn; exact hn (SameKey_of_Match hma hmb)
+  · intro x y hxy hyx; exact hxy (SameKey_symm hyx)
+
+/-- `SameKey` of valid entries does not change when blocks are added or grow at the end -/
+theorem SameKey_ext {st st' : State} {a b : Chunk} (ha : ChunkOk st.blocks a) (hb : ChunkOk st.blocks b)
+    (he : Ext st st') : SameKey st'.blocks a b ↔ SameKey st.blocks a b := by
+  obtain ⟨ba, hba, _, hla⟩ := ha
+  obtain ⟨bb, hbb, _, hlb⟩ := hb
+  obtain ⟨ba', hba', ⟨ta, hta⟩⟩ := he a.index ba hba
+  obtain ⟨bb', hbb', ⟨tb, htb⟩⟩ := he b.index bb hbb
+  have ea : slice ba'.data a.offset a.size = slice ba.data a.offset a.size := by
+    rw [← hta, slice_prefix_of_le _ _ _ _ hla]
+  have eb : slice bb'.data b.offset b.size = slice bb.data b.offset b.size := by
+    rw [← htb, slice_prefix_of_le _ _ _ _ hlb]
+  constructor
+  · rintro ⟨h1, h2, x, y, hx, hy, h3⟩
+    rw [hba'] at hx; cases hx
+    rw [hbb'] at hy; cases hy
+    exact ⟨h1, h2, ba, bb, hba, hbb, by rw [← ea, ← eb]; exact h3⟩
+  · rintro ⟨h1, h2, x, y, hx, hy, h3⟩
+    rw [hba] at hx; cases hx
+    rw [hbb] at hy; cases hy
+    exact ⟨h1, h2, ba', bb', hba', hbb', by rw [ea, eb]; exact h3⟩
+
+theorem Uniq_ext {codec : Codec} {st st' : State} (hinv : Inv codec st) (hu : Uniq st) (he : Ext st st')
+    (ht : st'.table = st.table) : Uniq st' := by
+  unfold Uniq
+  rw [ht]
+  refine List.Pairwise.imp_of_mem ?_ hu
+  intro a b ha hb hn hs
+  exact hn ((SameKey_ext (hinv.chunks a ha) (hinv.chunks b hb) he).1 hs)
+
+
+/-- shape of the table after `hash_table_insert`: the first matching entry is replaced, or the new entry is added
+when nothing matches -/
+theorem insert_table (codec : Codec) (d : Bytes) (hd : UInt32) (new : Chunk) : ∀ (l done : List Chunk) (st st' : State),
+    Inv codec st → (∀ c ∈ l, ChunkOk st.blocks c) → insert codec true st d hd new done l = .ok st' →
+    (∃ c r1 r2, l = r1 ++ c :: r2 ∧ st'.table = done ++ r1 ++ new :: r2 ∧ Match st c d hd ∧
+        ∀ x ∈ r1, ¬ Match st x d hd) ∨
+    (st'.table = done ++ l ++ [new] ∧ ∀ x ∈ l, ¬ Match st x d hd) := by
+  intro l
+  induction l with
+  | nil =>
+    intro done st st' _ _ h
+    simp only [insert] at h
+    cases h
+    exact Or.inr ⟨by simp, fun x hx => by cases hx⟩
+  | cons c rest ih =>
+    intro done st st' hinv hall h
+    obtain ⟨r, cache', heq, hiff, hco⟩ := chunkEquals_spec codec st hinv d hd c (hall c (by simp))
+    unfold insert at h
+    rw [heq] at h
+    cases r with
+    | true =>
+      simp only [] at h
+      cases h
+      exact Or.inl ⟨c, [], rest, by simp, by simp, hiff.1 rfl, fun x hx => by cases hx⟩
+    | false =>
+      simp only [] at h
+      have hnc : ¬ Match st c d hd := fun hm => by have := hiff.2 hm; cases this
+      rcases ih (done ++ [c]) { st with cache := cache' } st' (Inv_setCache hinv cache' hco)
+          (fun x hx => hall x (List.mem_cons_of_mem _ hx)) h with ⟨c', r1, r2, h1, h2, h3, h4⟩ | ⟨h1, h2⟩
+      · refine Or.inl ⟨c', c :: r1, r2, by simp [h1], by simp [h2], h3, ?_⟩
+        intro x hx
+        rcases List.mem_cons.1 hx with rfl | hx'
+        · exact hnc
+        · exact h4 x hx'
+      · refine Or.inr ⟨by simp [h1], ?_⟩
+        intro x hx
+        rcases List.mem_cons.1 hx with rfl | hx'
+        · exact hnc
+        · exact h2 x hx'
+
+/-- uniqueness survives `hash_table_insert` -/
+theorem insert_uniq (codec : Codec) (d : Bytes) (hd : UInt32) (new : Chunk) (st st' : State) (hinv : Inv codec st)
+    (hu : Uniq st) (hnew : Match st new d hd)
+    (h : insert codec true st d hd new [] st.table = .ok st') (hb : st'.blocks = st.blocks) : Uniq st' := by
+  unfold Uniq at hu ⊢
+  rw [hb]
+  rcases insert_table codec d hd new st.table [] st st' hinv hinv.chunks h with
+    ⟨c, r1, r2, h1, h2, h3, h4⟩ | ⟨h1, h2⟩
+  · rw [h2]
+    rw [h1] at hu
+    simp only [List.nil_append]
+    rw [List.pairwise_append, List.pairwise_cons] at hu ⊢
+    obtain ⟨p1, ⟨p2, p3⟩, p4⟩ := hu
+    have hcn : SameKey st.blocks c new := SameKey_of_Match h3 hnew
+    refine ⟨p1, ⟨?_, p3⟩, ?_⟩
+    · intro y hy hs
+      apply p2 y hy
+      -- SameKey c y from SameKey new y
+      have hmy : Match st y d hd := Match_of_SameKey hs hnew
+      exact SameKey_of_Match h3 hmy
+    · intro x hx y hy
+      rcases List.mem_cons.1 hy with rfl | hy'
+      · intro hs
+        apply p4 x hx c (List.mem_cons_self ..)
+        have hmx : Match st x d hd := Match_of_SameKey (SameKey_symm hs) hnew
+        exact SameKey_of_Match hmx h3
+      · exact p4 x hx y (List.mem_cons_of_mem _ hy')
+  · rw [h1]
+    simp only [List.nil_append]
+    rw [List.pairwise_append]
+    refine ⟨hu, by simp, ?_⟩
+    intro x hx y hy
+    simp at hy; subst hy
+    intro hs
+    exact h2 x hx (Match_of_SameKey (SameKey_symm hs) hnew)
+
+
+theorem Uniq_of_eq {st st' : State} (hu : Uniq st) (hb : st'.blocks = st.blocks) (ht : st'.table = st.table) :
+    Uniq st' := by
+  unfold Uniq at hu ⊢; rw [hb, ht]; exact hu
+
+theorem storeFragment_uniq (codec : Codec) (maxBlock : Nat) (st : State) (d : Bytes) (hd : UInt32) (flags : Nat)
+    (hinv : Inv codec st) (hu : Uniq st) (hz : allZero d = false) (r : Res) (st' : State)
+    (h : storeFragment codec true maxBlock st d hd flags = .ok (r, st')) : Uniq st' := by
+  obtain ⟨hi1, he1, ht1⟩ := overflow_spec codec maxBlock st d hinv
+  have hu1 := Uniq_ext hinv hu he1 ht1
+  obtain ⟨hi2, he2, ht2, hv⟩ := place_spec codec (overflow maxBlock st d) d flags hi1 hz
+  have hu2 := Uniq_ext hi1 hu1 he2 ht2
+  unfold storeFragment at h
+  simp only [] at h
+  generalize place (overflow maxBlock st d) d flags = pr at *
+  obtain ⟨i, o, st3⟩ := pr
+  simp only [] at hi2 he2 ht2 hv hu2 h
+  have hnewm : Match st3 ⟨i, o, d.length, hd⟩ d hd := by
+    obtain ⟨b, hb, _, hsl⟩ := hv
+    exact ⟨rfl, rfl, b, hb, hsl⟩
+  have hnew : ChunkOk st3.blocks ⟨i, o, d.length, hd⟩ := by
+    obtain ⟨b, hb, hle, _⟩ := hv
+    have : d ≠ [] := ne_nil_of_not_allZero hz
+    exact ⟨b, hb, by simp; exact List.length_pos_iff.2 this, hle⟩
+  obtain ⟨st4, h1, h2, _⟩ := insert_spec codec d hd ⟨i, o, d.length, hd⟩ st3.table [] st3 hi2
+    (by intro c hc; exact hi2.chunks c (by simpa using hc)) hnew
+  rw [h1] at h
+  cases h
+  exact insert_uniq codec d hd _ st3 st' hi2 hu2 hnewm h1 h2
+
+theorem processFragment_uniq (codec : Codec) (h : Bytes → UInt32) (maxBlock : Nat) (st : State) (d : Bytes)
+    (flags : Nat) (hinv : Inv codec st) (hu : Uniq st) (hok : fragOk d flags) (r : Res) (st' : State)
+    (hpf : processFragment codec h true maxBlock st d flags = .ok (r, st')) : Uniq st' := by
+  unfold processFragment at hpf
+  by_cases hsp : (!hasFlag flags blkIgnoreSparse && allZero d) = true
+  · rw [if_pos hsp] at hpf; cases hpf; exact hu
+  · rw [if_neg hsp] at hpf
+    have hz : allZero d = false := by
+      by_cases hig : hasFlag flags blkIgnoreSparse = true
+      · exact hok hig
+      · simp [hig] at hsp; simpa using hsp
+    generalize fragHash h d flags = hd at *
+    have hfind : ∃ r st1, findShared codec true st d hd flags = .ok (r, st1) ∧ st1.blocks = st.blocks ∧
+        st1.table = st.table ∧ Inv codec st1 := by
+      unfold findShared
+      by_cases hdd : hasFlag flags blkDontDeduplicate = true
+      · rw [if_pos hdd]; exact ⟨none, st, rfl, rfl, rfl, hinv⟩
+      · rw [if_neg hdd]
+        obtain ⟨r, st1, a1, a2, a3, a4, _, _⟩ := search_spec codec d hd st.table st hinv hinv.chunks
+        exact ⟨r, st1, a1, a2, a3, a4⟩
+    obtain ⟨r1, st1, hf, hb1, ht1, hinv1⟩ := hfind
+    rw [hf] at hpf
+    have hu1 : Uniq st1 := Uniq_of_eq hu hb1 ht1
+    cases r1 with
+    | some c => simp only [] at hpf; cases hpf; exact hu1
+    | none =>
+      simp only [] at hpf
+      exact storeFragment_uniq codec maxBlock st1 d hd flags hinv1 hu1 hz r st' hpf
+
+theorem run_uniq (codec : Codec) (hrt : codec.RoundTrip) (h : Bytes → UInt32) (maxBlock : Nat) :
+    ∀ (evs : List Ev) (st : State), Inv codec st → Uniq st → evsOk evs → ∀ rs st',
+      run codec h true maxBlock st evs = .ok (rs, st') → Uniq st' := by
+  intro evs
+  induction evs with
+  | nil => intro st _ hu _ rs st' hr; simp only [run] at hr; cases hr; exact hu
+  | cons e es ih =>
+    intro st hinv hu hok rs st' hr
+    have hoke : e.ok := hok e (List.mem_cons_self ..)
+    have hokes : evsOk es := fun x hx => hok x (List.mem_cons_of_mem _ hx)
+    unfold run at hr
+    cases e with
+    | frag d fl =>
+      obtain ⟨r, st1, hpf, hinv1, _⟩ :=
+        processFragment_spec codec h maxBlock st d fl [] hinv hoke (fun p hp => by cases hp)
+      have hu1 := processFragment_uniq codec h maxBlock st d fl hinv hu hoke r st1 hpf
+      simp only [step, hpf] at hr
+      cases hrr : run codec h true maxBlock st1 es with
+      | error x => rw [hrr] at hr; cases hr
+      | ok p =>
+        obtain ⟨rs1, st2⟩ := p
+        rw [hrr] at hr; cases hr
+        exact ih st1 hinv1 hu1 hokes rs1 _ hrr
+    | written idx =>
+      rcases blockWritten_spec codec hrt st idx hinv with ⟨st1, hbw, hinv1, hext1, ht1⟩ | herr
+      · simp only [step, hbw] at hr
+        cases hrr : run codec h true maxBlock st1 es with
+        | error x => rw [hrr] at hr; cases hr
+        | ok p =>
+          obtain ⟨rs1, st2⟩ := p
+          rw [hrr] at hr; cases hr
+          exact ih st1 hinv1 (Uniq_ext hinv hu hext1 ht1) hokes rs1 _ hrr
+      · simp only [step, herr] at hr; cases hr
+    | finish =>
+      obtain ⟨hinv1, hext1, ht1, _, _⟩ := closeOpen_spec codec st hinv
+      simp only [step] at hr
+      cases hrr : run codec h true maxBlock (closeOpen st) es with
+      | error x => rw [hrr] at hr; cases hr
+      | ok p =>
+        obtain ⟨rs1, st2⟩ := p
+        rw [hrr] at hr; cases hr
+        exact ih (closeOpen st) hinv1 (Uniq_ext hinv hu hext1 ht1) hokes rs1 _ hrr
+
+theorem Uniq_init : Uniq {} := List.Pairwise.nil
+
+/-- the answer of a lookup does not depend on the order in which the table is probed -/
+theorem search_perm (codec : Codec) (st : State) (hinv : Inv codec st) (hu : Uniq st) (d : Bytes) (hd : UInt32)
+    (l : List Chunk) (hp : l.Perm st.table) :
+    ∃ r s1 s2, search codec true st d hd st.table = .ok (r, s1) ∧ search codec true st d hd l = .ok (r, s2) := by
+  obtain ⟨r1, s1, a1, _, _, _, a5, a6⟩ := search_spec codec d hd st.table st hinv hinv.chunks
+  obtain ⟨r2, s2, b1, _, _, _, b5, b6⟩ := search_spec codec d hd l st hinv
+    (fun c hc => hinv.chunks c (hp.mem_iff.1 hc))
+  have : r1 = r2 := by
+    cases r1 with
+    | none =>
+      cases r2 with
+      | none => rfl
+      | some b =>
+        obtain ⟨hb, hm⟩ := b5 b rfl
+        exact absurd hm (a6 rfl b (hp.mem_iff.1 hb))
+    | some a =>
+      obtain ⟨ha, hma⟩ := a5 a rfl
+      cases r2 with
+      | none => exact absurd hma (b6 rfl a (hp.mem_iff.2 ha))
+      | some b =>
+        obtain ⟨hb, hmb⟩ := b5 b rfl
+        rw [match_unique hu ha (hp.mem_iff.1 hb) hma hmb]
+  subst this
+  exact ⟨r1, s1, s2, a1, b1⟩
+
 end Sqfs.FragDedup
